@@ -113,3 +113,25 @@ Proof.
   { split; [eapply specpath_mreach; exact HS|]. split; [vm_compute; reflexivity|exact HS]. }
   apply HE in HP. vm_compute in HP. discriminate HP.
 Qed.
+
+(* ---------- copies and container moves (second refinement, clean45x) *)
+Definition script_okx (s : list op) : bool :=
+  clean45x tiny tiny_el tiny_en tiny_check_fn LATEST [] s Inv.empty_world && is_val (run_script s empty_world).
+Theorem script_invx s :
+  script_okx s = true -> TreeFacts (wof s) /\ Inv04 tiny tiny_check_fn (wof s) /\ Inv05 tiny (wof s).
+Proof.
+  unfold script_okx, wof. intros H. apply andb_true_iff in H as (Hc & Hv).
+  destruct (run_script s empty_world) as [w'| |] eqn:E; try discriminate.
+  eapply (C04_C05_history_x tiny tiny_el tiny_en tiny_check_fn LATEST [] tiny_tables_ok s w' Hc).
+  rewrite <- run_script_run_ops. exact E.
+Qed.
+
+(* /A/S (5, with its reference 7 to /B) is copied next to itself: /A/S_1 (10), the copied reference (12) is registered;
+   then the whole package /A is copied: /A_1 with /A_1/S and /A_1/S_1; then ELEMENTS (4) of /A is moved into /B *)
+Definition copy_demo : list op := demo ++ [OpCopy 4 5; OpCopy 1 2; OpMove 8 4].
+Example copy_demo_summary :
+  (TreeFacts (wof copy_demo) /\ Inv04 tiny tiny_check_fn (wof copy_demo) /\ Inv05 tiny (wof copy_demo)) /\
+  idents_of (wof copy_demo) 0 =
+    [(BS "/A", 2); (BS "/A_1/S_1", 19); (BS "/B", 8); (BS "/B/S", 5); (BS "/A_1", 13); (BS "/A_1/S", 16); (BS "/B/S_1", 10)] /\
+  NoDup (map fst (origins_list (wof copy_demo) 0)).
+Proof. split; [apply script_invx; vm_compute; reflexivity|]. split; [vm_compute; reflexivity|]. vm_compute. repeat constructor; cbn; intuition discriminate. Qed.
